@@ -848,7 +848,7 @@ func constString(info *types.Info, e ast.Expr) (string, bool) {
 // path (their result is a function of the receiver only).
 var pureMethods = map[string]bool{
 	"Range": true, "Type": true, "RootName": true, "SourceRange": true, "StartRange": true,
-	"NameRange": true, "ElementType": true, "Ptr": true,
+	"NameRange": true, "ElementType": true, "Ptr": true, "Address": true, "OriginRange": true,
 }
 
 // pathOf renders a canonical access path for e: base object identity followed by field
